@@ -20,6 +20,18 @@ DIVERGE = {"unreachable", "unimplemented", "fatal_error", "panic", "abort"}
 MAX_INLINE = 4
 
 
+def all_tokens(n):
+    out = []
+    st = [n]
+    while st:
+        x = st.pop()
+        if is_tok(x):
+            out.append(x)
+        else:
+            st.extend(reversed(x[2]))
+    return out
+
+
 def seg_names(path_expr):
     """PATH_EXPR -> list of segment identifiers (SELF_KW as 'self')"""
     out = []
@@ -246,11 +258,12 @@ class Walk:
                 if x[0] == "IDENT_PATTERN" and ident(x):
                     env[ident(x)] = NONE
 
-    def emit_prim(self, out, w, cls, arg, line, note=None):
+    def emit_prim(self, out, w, cls, arg, line, note=None, names=None):
         const = arg.const if arg is not None else None
         if cls == "bool" and const is not None:
             const = (int(bool(const[0])), const[1] or ("true" if const[0] else "false"))
-        p = IR.prim(w, cls, const=const, note=note, line=line, lenof=arg.lenof if arg is not None else None)
+        p = IR.prim(w, cls, const=const, note=note, line=line, lenof=arg.lenof if arg is not None else None,
+                    names=names or ())
         out.append(p)
         return p
 
@@ -314,6 +327,8 @@ class Walk:
                     pat = c
         v = self.ev(init, env, out) if init is not None else NONE
         self.bind_pattern(pat, v, env)
+        if v.prim and self.side == "r" and pat is not None and pat[0] == "IDENT_PATTERN":
+            IR.add_name(v.prim, ident(pat))
         return NONE
 
     def d_PAREN_EXPR(self, n, env, out):
@@ -420,7 +435,12 @@ class Walk:
             ms = self.S.method(cls, name)
             if ms[0] == "prim":
                 arg = avs[0] if avs else None
-                p = self.emit_prim(out, ms[1], ms[2], arg, line, note=(text(args[0])[:60] if args else name))
+                names = None
+                if args and self.side == "w":
+                    names = [t[1] for x in [args[0]] for t in all_tokens(x) if t[0] == "IDENTIFIER"
+                             and not PURE_CONV.match(t[1]) and t[1] not in ("get_or_panic",)]
+                p = self.emit_prim(out, ms[1], ms[2], arg, line, note=(text(args[0])[:60] if args else name),
+                                   names=names)
                 if ms[3]:
                     self.has_assert = True
                 return Val(prim=p["id"], isbool=(ms[2] == "bool"), note=name)
